@@ -5,12 +5,15 @@ CONSTANTS
   BeamPos <- MC_BeamSim
   Phases <- MC_PhasesSim
   Ratios <- MC_Ratios
+  MinPulses = 1
   MaxPulses = 4
   MaxTurns = 16
+  Again = FALSE
   Pick = 3
   Bug = "none"
 INVARIANT TypeOK
 INVARIANT RejectedIffOverlap
+INVARIANT ValidationIgnoresListingOrder
 INVARIANT RefusedIffOutOfPhase
 INVARIANT OpenBeforeClose
 INVARIANT MaximalOpen
